@@ -264,3 +264,38 @@ def r8_at_loop_end(header_rx, text):
         fired.append('R8 splice at the end of the body of the loop /%s/' % header_rx[:40])
         return body[:cb] + X.SEP + text.replace('\n', X.SEP) + X.SEP + body[cb:]
     return hook
+
+
+# ----------------------------------------------------------------------------------------------------------------------
+# Rule introduced for unit ovl_read.  Additive and opt-in (body_hooks), logged.
+#
+# R23n  ghost token, body part, for NESTED callee calls     `.A(x, y.B(z))` with A and B both in the callee list  ->  `.A(x, y.B(z, TOKEN), TOKEN)`
+#       Same meaning as R23 (extract.r23_ghost_token_calls: every method call of a listed callee gets the ghost argument appended; erased by Verus).
+#       The standard implementation computes every closing parenthesis on the text as it was BEFORE the first insertion, so an insertion into an
+#       inner call misplaces the argument of the call around it; here the text is re-scanned after every insertion (last call first).  The function
+#       that uses this hook lists no method callees for the standard rule (its `ghost_token['callees']` is empty), so no call gets the argument twice.
+
+def r23n_nested_calls(callees, arg):
+    def hook(body, fired):
+        rx = re.compile(r'\.\s*(%s)\s*\(' % '|'.join(re.escape(c) for c in callees))
+        names, done, limit = [], 0, len(body) + 1
+        while True:
+            msk = X.mask(body)
+            hits = [m for m in rx.finditer(msk) if m.start() < limit]
+            if not hits:
+                break
+            m = hits[-1]
+            ob = m.end() - 1
+            cb = X.match_close(msk, ob)
+            j = cb
+            while msk[j - 1] in ' \t\n':
+                j -= 1
+            sep = '' if j - 1 == ob else (' ' if msk[j - 1] == ',' else ', ')
+            body = body[:j] + sep + arg + body[j:]
+            limit = m.start()
+            names.append(m.group(1))
+            done += 1
+        if done:
+            fired.append('R23n ghost argument %s appended to %d call(s), nested calls re-scanned: %s' % (arg, done, ', '.join(sorted(set(names)))))
+        return body
+    return hook
